@@ -302,6 +302,9 @@ def _bool(sx, args, kw, st, node):
 
 def _isinstance(sx, args, kw, st, node):
     v, cls = args
+    from .sx import Unknown
+    if isinstance(v, Conc) and isinstance(v.v, Unknown):
+        return ok(st, Val(V.Bool, z3.Bool(fresh_name("unknown_isinstance"))))   # nothing is known about the value
     names = sx.reg.class_names(cls)
     v = sx.deref(sx.lift(v) if isinstance(v, Conc) and not isinstance(v.v, (dict, Exc, tuple)) else v, st)
     B = _B()
@@ -1269,6 +1272,71 @@ def comprehension(sx, node, st, kind):
             if m is not None:
                 outs.extend(m)
                 continue
+            setv = getattr(payload, "v", None)
+            if k == "opaque" and isinstance(setv, Val) and isinstance(setv.ty, V.Set) and kind in ("gen", "list") and isinstance(gen.target, ast.Name):
+                # comprehension over a set: the result is SOME sequence of elt(x) for members x (order and multiplicity of set
+                # iteration are not modelled).  What is known: every element is elt(x) for an arbitrary member x -- in particular
+                # it lies in the language derived for elt at an arbitrary member; the result is empty iff nothing passes the filter.
+                x = sx.fresh(setv.ty.elem, "member", s)
+                s.frames.append({gen.target.id: x})
+                saved_spec = sx.spec_mode
+                sx.spec_mode += 1
+                try:
+                    hyp = [z3.Select(setv.term, x.term)] + [sx.truthy(sx.ev1(c, s), s) for c in gen.ifs]
+                    s2 = s.fork()
+                    for h in hyp:
+                        s2.assume(h)
+                    elt = sx.ev1(node.elt, s2)
+                    elt = sx.deref(sx.lift(elt) if isinstance(elt, Conc) else elt, s2)
+                    ec = sx.str_class(elt, s2) if isinstance(elt.ty, V._Str) else None
+                finally:
+                    sx.spec_mode = saved_spec
+                    s.frames.pop()
+                if isinstance(elt, (Ref, Func, Conc)) or elt.ty is None:
+                    raise Unsupported("comprehension element %r" % (elt,), node)
+                rt = V.List(elt.ty)
+                res = rt.fresh(fresh_name("setcomp"))
+                s.assume(rt.n(res.term) >= 0)
+                if not gen.ifs:
+                    s.assume((rt.n(res.term) > 0) == sx.set_nonempty(setv, s))
+                if ec is not None and (sx.ALLSTR is None or not ec.eq(sx.ALLSTR)):
+                    res.aux = dict(res.aux or {})
+                    res.aux["elem_re"] = ec
+                outs.append(R(s, res) if kind == "gen" else R(s, Ref(rt, s.alloc(res))))
+                continue
+            if k == "opaque" and hasattr(payload, "next") and kind in ("gen", "list") and isinstance(gen.target, ast.Name) and not sx.spec_mode:
+                # comprehension over an iterator known only through its model (dict.values(), cursors, ...): the result is SOME list
+                # of elt(x) values -- nothing is assumed about its length or contents, and the iteration may have had any effect the
+                # model's next() can have (ghost state made arbitrary).  Obligations that need more than that fail.
+                probe = s.fork()
+                k0 = sx.fresh(V.Int, "probe_k", probe)
+                sample = None
+                for r0 in payload.next(sx, probe, k0):
+                    if r0.exc is None and r0.val is not None:
+                        sample = r0.val
+                        break
+                if sample is not None:
+                    sv = sx.deref(sx.lift(sample) if isinstance(sample, Conc) else sample, probe)
+                    if isinstance(sv, Val) and not isinstance(sv, (Ref, Func, Conc)) and sv.ty is not None:
+                        x = sx.fresh(sv.ty, "item", s)
+                        s.frames.append({gen.target.id: x})
+                        saved_spec = sx.spec_mode
+                        sx.spec_mode += 1
+                        try:
+                            elt = sx.ev1(node.elt, s)
+                            elt = sx.deref(sx.lift(elt) if isinstance(elt, Conc) else elt, s)
+                        finally:
+                            sx.spec_mode = saved_spec
+                            s.frames.pop()
+                        if isinstance(elt, Val) and not isinstance(elt, (Ref, Func, Conc)) and elt.ty is not None:
+                            rt = V.List(elt.ty)
+                            res = rt.fresh(fresh_name("itercomp"))
+                            s.assume(rt.n(res.term) >= 0)
+                            sx.reg.havoc_ghost_for_unknown_call(sx, s)
+                            sx.uncontracted.append("comprehension over %s (line %s)" % (type(payload).__name__, getattr(node, "lineno", "?")))
+                            outs.append(R(s, res) if kind == "gen" else R(s, Ref(rt, s.alloc(res))))
+                            outs.append(R(s.fork(), None, Exc("Exception", exact=False)))
+                            continue
             raise Unsupported("comprehension over %s" % k, node)
         src = payload
         t = src.ty
@@ -1542,6 +1610,11 @@ def star_call(sx, node, st):
         outs.extend(raises)
         for vals, s in results:
             args, kwargs = [], {}
+            from .sx import Unknown
+            if isinstance(rf.val, Conc) and isinstance(rf.val.v, Unknown):
+                # a callee without contract: how the arguments are spliced is irrelevant, anything may happen
+                outs.extend(sx.call(rf.val, list(vals), {}, s, node))
+                continue
             for a, v in zip(node.args, vals[: len(node.args)]):
                 if isinstance(a, ast.Starred):
                     if isinstance(v, Conc) and isinstance(v.v, tuple):
